@@ -213,6 +213,11 @@ func c12Casketfile(stack []string) (string, error) {
 }
 
 func c12Server(stackField string) (*httpserver.Server, error) {
+	srv, _, err := c12Instance(stackField)
+	return srv, err
+}
+
+func c12Instance(stackField string) (*httpserver.Server, *casket.Instance, error) {
 	var stack []string
 	if stackField != "" {
 		stack = strings.Split(stackField, ",")
@@ -229,20 +234,20 @@ func c12Server(stackField string) (*httpserver.Server, error) {
 		}
 		text, err := c12Casketfile(stack)
 		if err != nil {
-			return nil, err
+			return nil, nil, err
 		}
 		inst, err = casket.Start(casket.CasketfileInput{Contents: []byte(text), Filepath: "C12file", ServerTypeName: "http"})
 		if err != nil {
-			return nil, err
+			return nil, nil, err
 		}
 		c12Insts[key] = inst
 	}
 	for _, s := range casket.VerifServers(inst) {
 		if hs, ok := s.(*httpserver.Server); ok {
-			return hs, nil
+			return hs, inst, nil
 		}
 	}
-	return nil, errors.New("no http server in the instance")
+	return nil, nil, errors.New("no http server in the instance")
 }
 
 // c12Chunks splits bytes into the known chunk texts.
@@ -294,12 +299,15 @@ func c12Chunks(b []byte, inner []byte, enc bool) []string {
 }
 
 func c12Body(w *c12Writer, inner []byte) string {
-	raw := w.body.Bytes()
-	var segs []string
 	ce := ""
 	if w.snap != nil {
 		ce = w.snap.Get("Content-Encoding")
 	}
+	return c12Classify(ce, w.body.Bytes(), inner)
+}
+
+func c12Classify(ce string, raw []byte, inner []byte) string {
+	var segs []string
 	if ce == "gzip" {
 		br := bytes.NewReader(raw)
 		zr, err := stdgzip.NewReader(br)
@@ -481,6 +489,115 @@ func c12Gen(g *hx.Gen) {
 	}
 }
 
+// ---- c12.live: the same sites over real sockets ----
+//
+// c12.live  stack  path  ae  inner      out = <status> <body> <follow-up on the same connection> <on a new one>
+// A real net/http client talks to the listener casket.Start opened: the request with the probe
+// script, then a plain request on the same keep-alive connection, then one on a fresh connection.
+
+func c12Get(tr *http.Transport, addr, path, probe string, ae bool) (int, string, []byte, error) {
+	req, err := http.NewRequest("GET", "http://"+addr+path, nil)
+	if err != nil {
+		return 0, "", nil, err
+	}
+	req.Host = "127.0.0.1"
+	if probe != "" {
+		req.Header.Set("X-Probe", probe)
+	}
+	if ae {
+		req.Header.Set("Accept-Encoding", "gzip")
+	}
+	res, err := tr.RoundTrip(req)
+	if err != nil {
+		return 0, "", nil, err
+	}
+	defer res.Body.Close()
+	b, err := io.ReadAll(res.Body)
+	if err != nil {
+		return res.StatusCode, res.Header.Get("Content-Encoding"), b, err
+	}
+	return res.StatusCode, res.Header.Get("Content-Encoding"), b, nil
+}
+
+func c12LiveEval(f []string) (string, []string) {
+	if len(f) != 4 {
+		return "bad-case", nil
+	}
+	_, inst, err := c12Instance(f[0])
+	if err != nil {
+		return "setup-error:" + err.Error(), nil
+	}
+	sl := inst.Servers()
+	if len(sl) == 0 || sl[0].Addr() == nil {
+		return "setup-error:no listener", nil
+	}
+	addr := sl[0].Addr().String()
+	path := "/x.html"
+	if f[1] != "html" {
+		path = "/x.bin"
+	}
+	var inner []byte
+	sp := strings.Split(f[3], ":")
+	if (sp[0] == "write" || sp[0] == "panicafter") && len(sp) >= 3 {
+		inner = hx.UnH(sp[2])
+	}
+	tr := &http.Transport{DisableCompression: true, MaxIdleConnsPerHost: 1}
+	defer tr.CloseIdleConnections()
+	st, ce, body, err := c12Get(tr, addr, path, f[3], f[2] == "1")
+	out := ""
+	if err != nil {
+		out = fmt.Sprintf("%d ERR:%s", st, strings.ReplaceAll(err.Error(), " ", "_"))
+	} else {
+		out = fmt.Sprintf("%d %s", st, c12Classify(ce, body, inner))
+	}
+	follow := func(t *http.Transport) string {
+		st, _, b, err := c12Get(t, addr, "/ok.txt", "", false)
+		if err != nil || st != 200 || string(b) != c12Follow {
+			return "bad"
+		}
+		return "ok"
+	}
+	f1 := follow(tr)
+	tr2 := &http.Transport{DisableCompression: true}
+	f2 := follow(tr2)
+	tr2.CloseIdleConnections()
+	return out + " " + f1 + " " + f2, []string{sp[0], "live"}
+}
+
+func c12LiveGen(g *hx.Gen) {
+	body := hx.HS("PROBE-BODY-1")
+	inners := []string{"ret:404:1", "ret:500:0", "ret:0:0", "write:200:" + body + ":0", "write:-:" + body + ":1", "write:404:" + body + ":0",
+		"panic", "panicafter:200:" + body, "panicafter:-:" + body}
+	for m := 0; m < 1<<len(c12Semantic); m++ {
+		for _, em := range c12ErrModes {
+			var stack []string
+			for i, d := range c12Semantic {
+				if m>>i&1 == 1 {
+					stack = append(stack, d)
+				}
+			}
+			if em != "" {
+				stack = append(stack, em)
+			}
+			if g.Rng.Bool() {
+				stack = append(stack, c12Transparent...)
+			}
+			sort.Strings(stack)
+			for _, in := range inners {
+				p := "html"
+				if !g.Thorough() && g.Rng.Chance(1, 4) {
+					p = "bin"
+				}
+				g.Case(strings.Join(stack, ","), p, "1", in)
+				if g.Thorough() {
+					g.Case(strings.Join(stack, ","), "bin", "0", in)
+				}
+			}
+		}
+	}
+}
+
 func init() {
+	hx.Register(&hx.Stream{ID: "C12", Name: "c12.live", Gen: c12LiveGen, Eval: c12LiveEval, Serial: true, Setup: c12Setup, Teardown: c12Teardown})
 	hx.Register(&hx.Stream{ID: "C12", Name: "c12.serve", Gen: c12Gen, Eval: c12Eval, Serial: true, Setup: c12Setup, Teardown: c12Teardown})
 }
